@@ -1,5 +1,6 @@
 import UF.Driver.Decode
 import UF.Model.RegexParse
+import UF.Spec.Shortcut
 /- Ops of work group A (regex core `re…`, C05 `c05…`). Return `none` for ops of other groups. -/
 namespace UF.Ops
 open UF.Re
@@ -14,13 +15,99 @@ def opRe (args : List W) : String :=
       if !Bytes.isAscii u then "ood -" else
       match parseRE p with
       | none => "ood -"
-      | some r => outBool (search r u) ++ " -"
+      | some r => outBool (searchFast r u) ++ " -"
     | _, _ => "bad-decode"
+  | _ => "bad-arity"
+
+def decRange (w : W) : Option (UInt8 × UInt8) :=
+  match w with
+  | .l [lo, hi] => do
+    let lo ← lo.nat?
+    let hi ← hi.nat?
+    if lo ≤ hi ∧ hi ≤ 255 then pure (lo.toUInt8, hi.toUInt8) else none
+  | _ => none
+
+/-- Wire form of a `regexp/syntax` tree (harness/op_c05.go `wtree`) ↦ `Re`; fuel bounds the depth. -/
+def decTree : Nat → W → Option Re
+  | 0, _ => none
+  | fuel + 1, w =>
+    match w with
+    | .a "nomatch" => some (.cls false [] false)
+    | .a "empty" => some .empty
+    | .a "any" => some .any
+    | .a "anynl" => some .anyNL
+    | .a "bol" => some .bol
+    | .a "eol" => some .eol
+    | .a "wb" => some .wordB
+    | .a "nwb" => some .nwordB
+    | .l [.a "lit", bs, fold] => do pure (.lit (← bs.bytes?) (← fold.bool?))
+    | .l (.a "cls" :: rs) => do pure (.cls false (← rs.mapM decRange) false)
+    | .l [.a "cap", t] => (decTree fuel t).map .grp
+    | .l [.a "star", t] => (decTree fuel t).map .star
+    | .l [.a "plus", t] => (decTree fuel t).map .plus
+    | .l [.a "quest", t] => (decTree fuel t).map .quest
+    | .l [.a "rep", t, mn, mx] => do
+      let t ← decTree fuel t
+      let mn ← mn.nat?
+      let mx ← if mx.isNone then pure none else (mx.nat?).map some
+      pure (.rep t mn mx)
+    | .l (.a "cat" :: ts) => (ts.mapM (decTree fuel)).map mkCat
+    | .l (.a "alt" :: ts) => (ts.mapM (decTree fuel)).map mkAlt
+    | _ => none
+
+/-- `c05.tree <ctree> x<subject>` -/
+def opC05Tree (args : List W) : String :=
+  match args with
+  | [t, u] =>
+    if t.isNone then "ood -" else
+    match decTree 1000 t, u.bytes? with
+    | some t, some u =>
+      if !Bytes.isAscii u then "ood -" else outBool (searchFast t u) ++ " -"
+    | _, _ => "bad-decode"
+  | _ => "bad-arity"
+
+/-- `c05.shortcut <tree> <ctree> x<shortcut>`: model = justified by the tree `findRegexpShortcut` consults,
+    spec = justified by the merged runs of the compiled expression (hypothesis of theorem `c05_justified_runs`). -/
+def opC05Shortcut (args : List W) : String :=
+  match args with
+  | [t, c, sc] =>
+    if t.isNone || c.isNone then "ood -" else
+    match decTree 1000 t, decTree 1000 c, sc.bytes? with
+    | some t, some c, some sc => outBool (shortcutJustified sc t) ++ " " ++ outBool (shortcutJustifiedRuns sc c)
+    | _, _, _ => "bad-decode"
+  | _ => "bad-arity"
+
+/-- `c05.url <ctree> x<shortcut> x<url>`: model = `Match` of a modifier-free regex rule
+    (shortcut test ∧ pattern), spec = the pattern alone. -/
+def opC05Url (args : List W) : String :=
+  match args with
+  | [t, sc, u] =>
+    if t.isNone then "ood -" else
+    match decTree 1000 t, sc.bytes?, u.bytes? with
+    | some t, some sc, some u =>
+      if !Bytes.isAscii u then "ood -" else
+      let acc := searchFast t u
+      outBool (Bytes.hasSub (Bytes.toLower u) sc && acc) ++ " " ++ outBool acc
+    | _, _, _ => "bad-decode"
+  | _ => "bad-arity"
+
+/-- `c05.mask x<pattern>`: model = the `IndexAny` loop, spec = first longest separator-free run. -/
+def opC05Mask (args : List W) : String :=
+  match args with
+  | [p] =>
+    match p.bytes? with
+    | some p =>
+      (match findShortcut p with | some s => outBytes s | none => "PANIC") ++ " " ++ outBytes (specFindShortcut p)
+    | none => "bad-decode"
   | _ => "bad-arity"
 
 def dispatchA (op : String) (args : List W) : Option String :=
   match op with
   | "re" => some (opRe args)
+  | "c05.tree" => some (opC05Tree args)
+  | "c05.shortcut" => some (opC05Shortcut args)
+  | "c05.url" => some (opC05Url args)
+  | "c05.mask" => some (opC05Mask args)
   | _ => none
 
 end UF.Ops
